@@ -39,7 +39,7 @@ SEARCHERS = ['F10', 'F11']
 JOINERS = ['F12', 'F13', 'F14', 'F15', 'F16', 'F17']
 VALUERS = ['F20', 'F21']
 BASE = {'A1': 'abc', 'B1': 'b', 'C1': 1, 'D1': 1, 'E1': 1, 'H1': 3, 'I1': 1, 'L1': '12'}
-OPERANDS = [5, -3, 0, 12345, True, False, None, 2.0, -7.0, 2.5, 0.1, -0.25, 'x', 'Yz', '']      # None = blank cell (override '' is the empty text)
+OPERANDS = [5, -3, 0, 12345, True, 1.0, False, 0.0, 1, None, 2.0, -7.0, 2.5, 0.1, -0.25, 'x', 'Yz', '', -0.0, 1e15, 123456789012345.0]      # None = blank cell (override '' is the empty text)
 NUMTEXTS = ['12', ' 12 ', '-3.5', '+7', '1e3', '1E3', '.5', '007', '1.50', '0', '-0', '3.', ' -4', '1e-2', '123456789012']
 
 
@@ -161,6 +161,8 @@ def run_join(shard, ctx):
     cells['K1'] = '=A1&N1&"|"'          # N1 is never written: a truly blank cell
     cells['K2'] = '=CONCATENATE("<",N1,">")'
     cells['K3'] = '=""&I1'
+    cells['K4'] = '=TRUE()&(2/2)&FALSE&(C1*0)'
+    cells['K5'] = '=CONCATENATE(I1,"|",I1*1,"|",I1=I1)'
     spec = wbspec.spec(wbspec.sheet('S', cells))
     vals = []
     for t in ['ab', '', 'Я ?', 'x']:
@@ -169,9 +171,10 @@ def run_join(shard, ctx):
                 if op is None:
                     continue
                 vals.append([(0, 'A1', t), (0, 'I1', op), (0, 'C1', c), (0, 'B1', 'q')])
+    rng.shuffle(vals)      # TRUE before 1.0 in one process, 1.0 before TRUE in another (seed): text forms remembered by == collide
     for nt in NUMTEXTS:
         vals.append([(0, 'L1', nt)])
-    judge_book(ctx, ID, spec, [(0, a) for a in JOINERS + VALUERS + ['K1', 'K2', 'K3']], vals, exact=True, classify=classify,
+    judge_book(ctx, ID, spec, [(0, a) for a in JOINERS + VALUERS + ['K1', 'K2', 'K3', 'K4', 'K5']], vals, exact=True, classify=classify,
                nontrivial=lambda case, outs: True, name='join', monitor='text-form-reference')
     r.sample({'operands': [wbspec.enc(o) for o in OPERANDS], 'numeric_texts': NUMTEXTS})
 
